@@ -255,6 +255,23 @@ def _arange(ev, st, t, depth=0):
             m = max(abs(a), abs(b))
             l0 = 0 if a <= 0 <= b else min(abs(a), abs(b))
             lo, hi = max(lo, l0), min(hi, m)
+        if t.op == "ring" and st.assume and t.w >= 8:
+            # a value whose sign was tested on this path: t = -y with y < 0, or t = y with y >= 0 (signed)
+            for a_ in st.assume:
+                y = None
+                if a_.op == "slt" and a_.args[1].op == "const" and a_.args[1].aux == 0 and a_.args[0].w == t.w:
+                    y, negative = a_.args[0], True
+                elif a_.op == "aff" and a_.w == 1 and len(a_.args) == 1 and a_.args[0].op == "slt" and (a_.aux[0] & 1):
+                    q = a_.args[0]
+                    if q.args[1].op == "const" and q.args[1].aux == 0 and q.args[0].w == t.w:
+                        y, negative = q.args[0], False
+                if y is None or y.op == "const":
+                    continue
+                if negative and T.add(t, y) is T.const(0, t.w):
+                    sl, sh = srange_of(ev, st, y) if depth < 3 else (-(1 << (t.w - 1)), (1 << (t.w - 1)) - 1)
+                    lo, hi = max(lo, 1, -sh), min(hi, -sl)
+                elif not negative and t is y:
+                    hi = min(hi, (1 << (t.w - 1)) - 1)
         if t.op == "ring":
             # c0 + sum ci * atom  with refined atom ranges, if no wrap
             l2 = h2 = 0
@@ -423,6 +440,18 @@ def discharge(ev, st, cond, exp):
             return (neg is True), "range"  # never zero
         if hi == 0:
             return (neg is False), "range"
+        t = x.args[0]
+        if t.op == "ring" and t.w >= 8:
+            # u + c == 0  iff  u == -c: impossible when -c lies outside the signed or the unsigned interval of u (x == MIN after a
+            # subtraction of sign-extended halves, ...)
+            c = dict(t.aux).get((), 0)
+            if c:
+                u = T.sub(t, T.const(c, t.w))
+                target = (-c) & T.mask(t.w)
+                ul, uh = arange(ev, st, u)
+                sl, sh = srange_of(ev, st, u)
+                if not (ul <= target <= uh) or not (sl <= T.to_signed(target, t.w) <= sh):
+                    return (neg is True), "range"
     return False, "open"
 
 
